@@ -401,6 +401,24 @@ inline void add_family_model(std::string name, char const* sub, int nx, int ny, 
     add_family_raw(std::move(name), sub, nx, ny, fe, fm, nullptr, nullptr);
 }
 
+// first blank-separated token in which two outcome strings differ (puts the failing obligation in front of the detail)
+[[gnu::noinline]] inline auto first_difference(std::string const& e, std::string const& s) -> std::string
+{
+    auto split = [](std::string const& x) {
+        std::vector<std::string> v;
+        std::stringstream ss(x);
+        std::string t;
+        while (ss >> t) { v.push_back(t); }
+        return v;
+    };
+    auto a = split(e);
+    auto b = split(s);
+    std::size_t i = 0;
+    while (i < a.size() && i < b.size() && a[i] == b[i]) { ++i; }
+    std::string ctx = i > 0 ? a[i - 1] + " " : std::string();
+    return "first difference after `" + ctx + "`: etl `" + (i < a.size() ? a[i] : std::string("<end>")) + "` std `" + (i < b.size() ? b[i] : std::string("<end>")) + "`";
+}
+
 // "" = ok
 inline auto run_one(Family const& f, int x, int y) -> std::string
 {
@@ -413,7 +431,7 @@ inline auto run_one(Family const& f, int x, int y) -> std::string
     lt::reset();
     if (!ls.empty()) { return "HARNESS BUG: the std:: side of this scenario violates the lifetime registry: " + ls; }
     if (!le.empty()) { return le + " [etl outcome: " + e + "]"; }
-    if (e != s) { return "etl: " + e + " | std: " + s; }
+    if (e != s) { return first_difference(e, s) + " || etl: " + e + " | std: " + s; }
     return "";
 }
 
